@@ -63,6 +63,19 @@ Theorem C12_contract_old_rule_is_EngineM : forall p init stream l r,
 Proof. exact propagate_old_rule_is_EngineM. Qed.
 Print Assumptions C12_contract_old_rule_is_EngineM.
 
+(* frame_k_own_data: a path that is the stop-rule prefix of a trajectory's own-data frames (what
+   every *_returns_prefix theorem below delivers) has, as its k-th frame, the order parameter
+   of the k-th configuration's own positions, box and velocity direction, and config index k *)
+Theorem C12_frame_k_own_data : forall fx left right M t0 ord rv traj p s,
+  (0 < M)%nat ->
+  run_frames fx left right (empty_path M t0) (own_stream ord rv traj) = SStop p s ->
+  forall k f, nth_error (pts p) k = Some f ->
+  exists c, nth_error traj k = Some c /\
+    ford f = ord (cpos c) (if rv then - cvel c else cvel c) (cbox c) /\
+    ftag f = Z.of_nat k /\ frev f = rv.
+Proof. exact stop_prefix_frames_own. Qed.
+Print Assumptions C12_frame_k_own_data.
+
 Example C12_contract_example :
   erase_pr (propagate_x true (empty_path 5 0) (mkF 2 0 false 0) [mkF 3 1 false 1; mkF 7 2 false 2; mkF 1 3 false 3] 0 5)
   = SStop (mkP [mkF 2 0 false 0; mkF 3 1 false 1; mkF 7 2 false 2] 5 0) true.
@@ -182,24 +195,24 @@ Proof. cbn zeta. split; [repeat constructor|]. vm_compute. reflexivity. Qed.
 (* the TRR polling state machine, for ANY sequence of observed file sizes: whatever it returns
    is the stop rule over the frames in file order, each consumed exactly once (gres_ok);
    runs that wait forever for the data block of a dead program (Hang) are outside the statement *)
-Theorem C12_gromacs_any_schedule : forall fx ord left right rv traj code fixL3 hsz dsz head0 final_size p0 dead eps,
+Theorem C12_gromacs_any_schedule : forall fx ord left right rv traj code fixL3 fixL14 hsz dsz head0 final_size p0 dead eps,
   gres_ok fx ord left right rv code fixL3 p0 0 traj
-    (gromacs_run fx ord left right rv traj code fixL3 hsz dsz head0 final_size p0 dead eps).
+    (gromacs_run fx ord left right rv traj code fixL3 fixL14 hsz dsz head0 final_size p0 dead eps).
 Proof. exact gromacs_any_schedule. Qed.
 Print Assumptions C12_gromacs_any_schedule.
 
 (* own data: repaired double negation (fixL3), or forward direction, or a velocity-direction
    independent order parameter *)
-Theorem C12_gromacs_returns_prefix : forall fx ord left right rv traj code fixL3 hsz dsz head0 final_size p0 dead eps p s ps,
+Theorem C12_gromacs_returns_prefix : forall fx ord left right rv traj code fixL3 fixL14 hsz dsz head0 final_size p0 dead eps p s ps,
   gmx_own_cond ord rv fixL3 ->
-  gromacs_run fx ord left right rv traj code fixL3 hsz dsz head0 final_size p0 dead eps = Ret p s ps ->
+  gromacs_run fx ord left right rv traj code fixL3 fixL14 hsz dsz head0 final_size p0 dead eps = Ret p s ps ->
   run_frames fx left right p0 (own_stream ord rv traj) = SStop p s.
 Proof. exact gromacs_returns_prefix. Qed.
 Print Assumptions C12_gromacs_returns_prefix.
 
-Theorem C12_gromacs_failure_raises : forall fx ord left right rv traj code fixL3 hsz dsz head0 final_size p0 dead eps,
+Theorem C12_gromacs_failure_raises : forall fx ord left right rv traj code fixL3 fixL14 hsz dsz head0 final_size p0 dead eps,
   code <> 0 ->
-  match gromacs_run fx ord left right rv traj code fixL3 hsz dsz head0 final_size p0 dead eps with
+  match gromacs_run fx ord left right rv traj code fixL3 fixL14 hsz dsz head0 final_size p0 dead eps with
   | Trunc _ _ => False
   | _ => True
   end.
@@ -209,15 +222,25 @@ Print Assumptions C12_gromacs_failure_raises.
 (* lead L3: reverse = True with a velocity-dependent order parameter, code as it is *)
 Theorem C12_gromacs_double_negation_refuted :
   exists ord left right traj eps p s ps,
-    gromacs_run true ord left right true traj 0 false 10 20 10 60 (empty_path 2 0) false eps = Ret p s ps /\
+    gromacs_run true ord left right true traj 0 false false 10 20 10 60 (empty_path 2 0) false eps = Ret p s ps /\
     run_frames true left right (empty_path 2 0) (own_stream ord true traj) <> SStop p s /\
-    gromacs_run true ord left right true traj 0 true 10 20 10 60 (empty_path 2 0) false eps <> Ret p s ps.
+    gromacs_run true ord left right true traj 0 true false 10 20 10 60 (empty_path 2 0) false eps <> Ret p s ps.
 Proof. exact gromacs_double_negation_refuted. Qed.
 Print Assumptions C12_gromacs_double_negation_refuted.
 
+(* lead L14: the program dies after writing a frame header but not its data (the header was
+   read while it was still running): the loop as it is waits forever (outcome Hang, outside
+   the statements above); with the repaired wait loop the failure raises *)
+Theorem C12_gromacs_midframe_crash_refuted :
+  exists ord left right traj eps p,
+    gromacs_run true ord left right false traj 1 true false 10 20 10 45 (empty_path 5 0) false eps = Hang p /\
+    gromacs_run true ord left right false traj 1 true true 10 20 10 45 (empty_path 5 0) false eps = Raise p (PExited 1).
+Proof. exact gromacs_midframe_crash_refuted. Qed.
+Print Assumptions C12_gromacs_midframe_crash_refuted.
+
 Example C12_gromacs_example :
   gromacs_run true (fun p v b => p + v + b) (-5) 30 false
-    [mkC 0 1 10; mkC 1 2 20; mkC 2 3 30; mkC 3 4 40] 0 false 10 20 25 120 (empty_path 9 0) false
+    [mkC 0 1 10; mkC 1 2 20; mkC 2 3 30; mkC 3 4 40] 0 false false 10 20 25 120 (empty_path 9 0) false
     [0; 12; 30; 40; 95]%nat
   = Ret (mkP [mkF 11 0 false 0; mkF 23 1 false 1; mkF 35 2 false 2] 9 0) true PKilled.
 Proof. vm_compute. reflexivity. Qed.
